@@ -132,8 +132,8 @@ def close_system(desc, arrs):
         arrs[f"F{i}"] = MArr(common, items, dict(tot))
 
 
-def run_balance(desc):
-    desc = {**desc, "flows": [dict(f) for f in desc["flows"]]}
+def run_balance(desc, reuse=None):
+    desc = {**desc, "flows": [dict(f) for f in desc["flows"] if not f.get("closing")]}
     U = desc["universe"]
     items = build.uitems(U)
     arrs = arrays_of(desc)
@@ -203,7 +203,7 @@ def run_balance(desc):
     for i, f in enumerate(desc["flows"]):
         flows[f"F{i}"] = fd.Flow(dims=build.dimset(U, f["letters"]), values=nd(f"F{i}"), name=f"F{i}", from_process=pl[f["src"]], to_process=pl[f["dst"]])
     stocks = {}
-    for i, s in enumerate(desc["stocks"]):
+    for i, s in enumerate(desc["stocks"] if reuse is None else []):
         ds = build.dimset(U, s["letters"])
         stocks[f"S{i}"] = fd.SimpleFlowDrivenStock(
             dims=ds,
@@ -230,7 +230,25 @@ def run_balance(desc):
             raise Discard("unreachable")
         if desc["tol"] == "default" and not touched:
             raise Discard("NaN only in a stock without process")
-    mfa = fd.MFASystem(dims=build.dimset(U), parameters={}, processes=procs, flows=flows, stocks=stocks)
+    if reuse is None:
+        mfa = fd.MFASystem(dims=build.dimset(U), parameters={}, processes=procs, flows=flows, stocks=stocks)
+    else:
+        # the SAME system object, all values rewritten in place (another scenario / unit / iteration)
+        mfa = reuse
+        same = set(mfa.flows) == set(flows) and all(tuple(mfa.flows[n].dims.letters) == tuple(flows[n].dims.letters) and mfa.flows[n].from_process.id == flows[n].from_process.id and mfa.flows[n].to_process.id == flows[n].to_process.id for n in flows)
+        if not same:
+            raise Discard("second round has another closing-flow structure")
+        for n in flows:
+            how_ = desc.get("rewrite", 0)
+            if how_ % 3 == 0:
+                mfa.flows[n].values[...] = flows[n].values
+            elif how_ % 3 == 1:
+                mfa.flows[n][...] = fd.FlodymArray(dims=flows[n].dims, values=flows[n].values)
+            else:
+                mfa.flows[n].set_values(flows[n].values)
+        for i, s_ in enumerate(desc["stocks"]):
+            for q in ("inflow", "outflow", "stock"):
+                getattr(mfa.stocks[f"S{i}"], q).values[...] = nd(f"S{i}.{q}")
     kw = {"raise_error": desc["raise"]}
     if desc["tol"] == "explicit":
         kw["tolerance"] = tol
@@ -256,6 +274,15 @@ def run_balance(desc):
     if expect_fail and desc["raise"]:
         require(how == "raised", "failure-not-raised-in-raise-mode", ctx)
     het = len({tuple(sorted(f["letters"])) for f in desc["flows"]}) > 1
+    if desc.get("then") and not nan and reuse is None:
+        d2 = {k: v for k, v in desc.items() if k != "then"}
+        d2.update(desc["then"])
+        d2["nan"] = None
+        try:
+            run_balance(d2, reuse=mfa)
+            classes.append("rechecked-same-object-other-magnitude")
+        except Discard:
+            classes.append("recheck-discarded")
     return {"nontrivial": desc["nproc"] >= 3 or het or bool(desc["stocks"]), "classes": classes}
 
 
@@ -297,6 +324,14 @@ def balance_cases(draw):
             where = draw(st.sampled_from(["S0.stock", "F0", "F1"]))
             d["big"] = {"where": where, "exp": draw(st.sampled_from([20, 30, 40])), "pos": draw(st.integers(0, 20))}
     d["nan"] = {"idx": draw(st.integers(0, 30)), "pos": draw(st.integers(0, 50))} if draw(st.integers(0, 5)) == 0 else None
+    if mode == "balanced" and d["tol"] == "default" and draw(st.booleans()):
+        # second round on the same object: another magnitude and another perturbation
+        d["then"] = {
+            "big": dict(d["big"], exp=draw(st.sampled_from([2, 12, 30, 45]))),
+            "perturb": {"idx": draw(st.integers(0, 30)), "pos": draw(st.integers(0, 50)), "factor": draw(st.sampled_from([0, 0.5, 2, 10, -2]))},
+            "rewrite": draw(st.integers(0, 2)),
+            "raise": draw(st.booleans()),
+        }
     return d
 
 
